@@ -292,12 +292,20 @@ def run_pipe(scratch, obls, jobs, mem_gb, harness_timeout):
         st = r["status"]
         if any(x.startswith("UNALLOCATED-POINTER-MODEL") for x in noise) and (covers == 0 or covers_bad):
             inconcl.append("paths were cut by Kani's unallocated-pointer model and the obligation has no (or unsatisfied) reachability covers")
+        broken = [x for x in inconcl if x.startswith("unsupported construct reachable") or x.startswith("paths were cut by Kani's unallocated-pointer model")]
+        unreliable = []
+        if broken and fails:
+            # CBMC's model of this harness broke down (a construct Kani does not support is reachable, or paths were cut by the
+            # unallocated-pointer model without a satisfied cover): values along those paths are unconstrained and EVERY clause
+            # fails at once (contract clauses, std-internal checks).  A tool limit, never a verdict on the property.
+            unreliable, fails = fails, []
+            inconcl.append("%d failed clause(s) are not reported as violations: the verifier's model of this harness broke down (see the reasons above)" % len(unreliable))
         if st == "Failure" and not fails and not inconcl:
             st = "Success"  # only allocator-model noise failed
         if st in ("Timeout", "OutOfMemory", "Error"):
             inconcl.append("%s: %s" % (st, r.get("error") or "resource limit (%ds, %dGB)" % (harness_timeout, mem_gb)))
         res[n] = {"status": st, "duration_ms": r.get("duration_ms"), "fails": fails, "inconclusive": inconcl, "covers": covers,
-                  "covers_unsatisfied": covers_bad, "checks": nchecks, "stats": r.get("stats") or {}, "model_noise": sorted(set(noise)),
+                  "covers_unsatisfied": covers_bad, "checks": nchecks, "stats": r.get("stats") or {}, "model_noise": sorted(set(noise)), "unreliable_fails": [f["description"] for f in unreliable][:20],
                   "nooped_drop_glue": r.get("nooped_drop_glue"), "error": {"error_type": r.get("error")}, "cbmc_cmd": r.get("cbmc_cmd")}
     return res, logfile, cmd
 
